@@ -157,10 +157,13 @@ def run(ck):
                 size = norm(c.args[0]) if c.args else "?"
                 n_sites += 1
 
-                def maps(nd, var=var, size=size):
+                res_f = Resolver(f)
+
+                def maps(nd, var=var, size=size, res_f=res_f):
                     for k in node_calls(nd):
                         if isinstance(k.func, ast.Attribute) and k.func.attr == "add_memory_page" and k.args and norm(k.args[0]) == var:
-                            data = norm(k.args[2]) if len(k.args) > 2 else ""
+                            # the page content may be a named temporary (`data = b"\x00" * size`)
+                            data = res_f.expand(k.args[2]) if len(k.args) > 2 else ""
                             return size in data
                     return False
                 ok = True
@@ -180,8 +183,9 @@ def run(ck):
     ok = False
     if cur and isinstance(cur[0].ast, ast.Assign):
         var = norm(cur[0].ast.targets[0])
+        res3 = Resolver(fn)
         mp = [nd for nd in cfg.nodes if any(isinstance(c.func, ast.Attribute) and c.func.attr == "add_memory_page" and c.args and
-                                            norm(c.args[0]) == var and len(c.args) > 2 and sp in norm(c.args[2]) for c in node_calls(nd))]
+                                            norm(c.args[0]) == var and len(c.args) > 2 and sp in res3.expand(c.args[2]) for c in node_calls(nd))]
         rets = [nd for nd in cfg.nodes if nd.kind == "stmt" and isinstance(nd.ast, ast.Return)]
         dom = cfg.dominators()
         ok = bool(mp) and bool(rets) and all(norm(r.ast.value) == var and any(x.id in dom[r.id] for x in mp) for r in rets)
